@@ -29,10 +29,22 @@ RoundTripGuard == 1        \* |read back - written| <= 1 unit of 10^-p  (correct
 
 Bilin(e, X, Y) == e.a + e.b * X + e.c * Y + e.d * X * Y
 
+\* the store after event e according to the model (observers and rejected writes: unchanged)
+ModelPost1(e, M) ==
+  CASE e.op \in {"set", "isetv"} -> IF Acc_Set1(M, e.node, e.v) THEN Set1(M, e.node, e.v) ELSE M
+    [] e.op = "iset" -> IF InRange1(M, e.node) /\ InVar(M, e.var) THEN SetVar1(M, e.node, e.var, e.x) ELSE M
+    [] OTHER -> M
+ModelPost2(e, M) ==
+  CASE e.op \in {"set", "isetv"} -> IF Acc_Set2(M, e.i, e.j, e.v) THEN Set2(M, e.i, e.j, e.v) ELSE M
+    [] e.op = "iset" -> IF InRange2(M, e.i, e.j) /\ InVar(M, e.var) THEN SetVar2(M, e.i, e.j, e.var, e.x) ELSE M
+    [] e.op = "assign" -> Assign2(M, e.x)
+    [] e.op = "apply" -> IF InVar(M, e.var) THEN Apply2(M, LAMBDA X, Y : Bilin(e, X, Y), e.var) ELSE M
+    [] OTHER -> M
+ModelPost(e, M) == IF e.kind = "m1" THEN ModelPost1(e, M) ELSE ModelPost2(e, M)
+
 Explained1(e, M) ==
-  CASE e.op = "set" -> IF Acc_Set1(M, e.node, e.v) THEN Wrote(e, Set1(M, e.node, e.v)) ELSE Unchanged(e, M)
-    [] e.op = "isetv" -> IF Acc_Set1(M, e.node, e.v) THEN Wrote(e, Set1(M, e.node, e.v)) ELSE Unchanged(e, M)
-    [] e.op = "iset" -> IF InRange1(M, e.node) /\ InVar(M, e.var) THEN Wrote(e, SetVar1(M, e.node, e.var, e.x)) ELSE Unchanged(e, M)
+  CASE e.op \in {"set", "isetv"} -> IF Acc_Set1(M, e.node, e.v) THEN Wrote(e, ModelPost1(e, M)) ELSE Unchanged(e, M)
+    [] e.op = "iset" -> IF InRange1(M, e.node) /\ InVar(M, e.var) THEN Wrote(e, ModelPost1(e, M)) ELSE Unchanged(e, M)
     [] e.op = "get" -> IF InRange1(M, e.node) THEN Read(e, M) /\ e.rv = Get1(M, e.node) ELSE Unchanged(e, M)
     [] e.op = "index" -> IF InRange1(M, e.node) THEN Read(e, M) /\ e.rv = Index1(M, e.node) ELSE Unchanged(e, M)
     [] e.op = "index_all" -> Read(e, M) /\ e.rvars = M.vars
@@ -62,11 +74,10 @@ Explained1(e, M) ==
     [] OTHER -> FALSE
 
 Explained2(e, M) ==
-  CASE e.op = "set" -> IF Acc_Set2(M, e.i, e.j, e.v) THEN Wrote(e, Set2(M, e.i, e.j, e.v)) ELSE Unchanged(e, M)
-    [] e.op = "isetv" -> IF Acc_Set2(M, e.i, e.j, e.v) THEN Wrote(e, Set2(M, e.i, e.j, e.v)) ELSE Unchanged(e, M)
-    [] e.op = "iset" -> IF InRange2(M, e.i, e.j) /\ InVar(M, e.var) THEN Wrote(e, SetVar2(M, e.i, e.j, e.var, e.x)) ELSE Unchanged(e, M)
-    [] e.op = "assign" -> Wrote(e, Assign2(M, e.x))
-    [] e.op = "apply" -> IF InVar(M, e.var) THEN Wrote(e, Apply2(M, LAMBDA X, Y : Bilin(e, X, Y), e.var)) ELSE Unchanged(e, M)
+  CASE e.op \in {"set", "isetv"} -> IF Acc_Set2(M, e.i, e.j, e.v) THEN Wrote(e, ModelPost2(e, M)) ELSE Unchanged(e, M)
+    [] e.op = "iset" -> IF InRange2(M, e.i, e.j) /\ InVar(M, e.var) THEN Wrote(e, ModelPost2(e, M)) ELSE Unchanged(e, M)
+    [] e.op = "assign" -> Wrote(e, ModelPost2(e, M))
+    [] e.op = "apply" -> IF InVar(M, e.var) THEN Wrote(e, ModelPost2(e, M)) ELSE Unchanged(e, M)
     [] e.op = "get" -> IF InRange2(M, e.i, e.j) THEN Read(e, M) /\ e.rv = Get2(M, e.i, e.j) ELSE Unchanged(e, M)
     [] e.op = "index" -> IF InRange2(M, e.i, e.j) THEN Read(e, M) /\ e.rv = Index2(M, e.i, e.j) ELSE Unchanged(e, M)
     [] e.op = "index_all" -> Read(e, M) /\ e.rvars = M.vars
@@ -101,6 +112,14 @@ ShapeOK(e, M) == IF e.kind = "m1"
                         /\ \A i \in 1..Len(e.post) : /\ Len(e.post[i]) = NY(M)
                                                      /\ \A j \in 1..Len(e.post[i]) : Len(e.post[i][j]) = M.nv
 
+\* magnitudes: a logged store is adopted after a mismatch only if it is a plausible store -- the model's shape and no
+\* entry larger than the entries of the model's stores (so that later quadratures stay inside TLC's integers)
+Entries(e, V) == IF e.kind = "m1" THEN {Abs(V[k][v]) : k \in 1..Len(V), v \in 1..Len(V[1])}
+                 ELSE UNION {{Abs(V[i][j][v]) : j \in 1..Len(V[1]), v \in 1..Len(V[1][1])} : i \in 1..Len(V)}
+MaxOf(S) == IF S = {} THEN 0 ELSE CHOOSE x \in S : \A y \in S : y <= x
+Plausible(e, M, X) == /\ ShapeOK(e, M)
+                      /\ LET b == MaxOf(Entries(e, M.vars) \cup Entries(e, X.vars)) IN \A x \in Entries(e, e.post) : x <= b
+
 Init == l = 1 /\ cur = New1(<<0, 1>>, 1) /\ TLCSet(1, 0)
 Step == /\ l <= NRec
         /\ LET e == Rec[l]
@@ -108,7 +127,8 @@ Step == /\ l <= NRec
            IN IF Explained(e, M)
                 THEN cur' = [M EXCEPT !.vars = e.post]              \* = the model's post-state (checked by Explained)
                 ELSE /\ Mismatch(l, e, e.op)
-                     /\ cur' = IF ShapeOK(e, M) THEN [M EXCEPT !.vars = e.post] ELSE M     \* re-synchronise on the logged store
+                     /\ LET X == ModelPost(e, M)                    \* re-synchronise on the logged store if plausible
+                        IN cur' = IF Plausible(e, M, X) THEN [M EXCEPT !.vars = e.post] ELSE X
         /\ l' = l + 1
 Spec == Init /\ [][Step]_vars
 =============================================================================
